@@ -129,7 +129,7 @@ class Driver:
             return c.add_blackbox(self.bbs[key], inst, dict(conns) if conns else None)
         if meth == "@fill":
             inst, which = args
-            child = {"feedthrough": child_feedthrough, "ha": child_ha}[which](self.mk)
+            child = child_with_blackbox(self.mk, self.mkbb) if which == "withbb" else {"feedthrough": child_feedthrough, "ha": child_ha}[which](self.mk)
             return c.fill_blackbox(inst, child)
         if meth == "@add_sub":
             which, inst, conns = args
